@@ -326,13 +326,13 @@ impl Sim {
         }
         if was_ended {
             p.push(format!(
-                "source called {} time(s) after it had reported end of input / an error",
+                "[read-discipline] source called {} time(s) after it had reported end of input / an error",
                 calls.len()
             ));
             return;
         }
         let Some(need) = need else {
-            p.push(format!("operation made {} read call(s) but must not read", calls.len()));
+            p.push(format!("[read-discipline] operation made {} read call(s) but must not read", calls.len()));
             return;
         };
         let mut have = before_len;
@@ -340,21 +340,21 @@ impl Sim {
         let mut successes = 0;
         for &(offered, res) in calls {
             if offered == 0 {
-                p.push("zero-length buffer offered to the source".into());
+                p.push("[read-discipline] zero-length buffer offered to the source".into());
             }
             if ended {
-                p.push("source called again after it reported end/error".into());
+                p.push("[read-discipline] source called again after it reported end/error".into());
                 break;
             }
             if have >= need && !(single && successes == 0) {
                 p.push(format!(
-                    "read call made although {} bytes were buffered and only {} were requested",
+                    "[read-discipline] read call made although {} bytes were buffered and only {} were requested",
                     have, need
                 ));
                 break;
             }
             if single && successes >= 1 {
-                p.push("request_more performed more than one successful read".into());
+                p.push("[read-discipline] request_more performed more than one successful read".into());
                 break;
             }
             match res {
@@ -444,7 +444,7 @@ impl Sim {
                     self.discipline(&calls, Some(usize::MAX), before_len, was_ended, true, &mut p);
                     if !was_ended && calls.iter().filter(|c| c.1 != -1).count() != 1 && self.leftover == 0 {
                         p.push(format!(
-                            "request_more made {} non-interrupted read calls, expected exactly one",
+                            "[read-discipline] request_more made {} non-interrupted read calls, expected exactly one",
                             calls.iter().filter(|c| c.1 != -1).count()
                         ));
                     }
@@ -646,6 +646,8 @@ pub fn gen_op(rng: &mut Rng, sim: &Sim, hostile: bool) -> Op {
 }
 
 pub struct C02 {
+    /// report only violations of the read discipline (used by the C09 plan)
+    pub only_discipline: bool,
     pub hostile: bool,
     pub max_ops: usize,
     pub max_stream: usize,
@@ -752,6 +754,9 @@ impl Monitor for C02 {
                             .collect()),
                     )
             });
+        }
+        if self.only_discipline {
+            problems.retain(|p| p.starts_with("[read-discipline]"));
         }
         if !problems.is_empty() {
             let kind = problems[0]
